@@ -23,12 +23,14 @@ SPEC = dict(
          'input that reproduces it on a fresh context. Distinct = distinct case name; non-trivial = at least one library call was executed under the oracle.',
     bounds=dict(
         quick='(i) 11 binary entry points x {all strings of length <= 2 over all 256 bytes, all strings of length <= 5 over the structural alphabet} x {no log, debug log}; '
-              '(ii) 12 seeds (2 reference signatures, 6 reference PDUs v1/v2 incl. error and configuration, 2 sample signatures, 1 nested TLV sample, 1 publications file) x '
+              '(ii) 13 seeds (2 reference signatures, the 10-byte signature whose input hash is a zero-length imprint at the end, 6 reference PDUs v1/v2 incl. error and configuration, 2 sample signatures, 1 nested TLV sample, 1 publications file) x '
               'all five families x both log levels; (iii) all strings of length <= 3 over 129 characters through KSI_PublicationData_fromBase32 (both log levels), '
-              'KSI_UriSplitBasic, KSI_getHashAlgorithmByName; 6 publication strings and 24 algorithm names with all single-character edits; 52,057 URIs; '
+              'KSI_UriSplitBasic, KSI_getHashAlgorithmByName; 6 publication strings and 24 algorithm names with all single-character edits; 104,109 URIs (13 scheme x 7 userinfo x 13 host x 11 port x 8 path forms, 5 URIs with a 5000 character component); '
               'KSI_Integer_toDateString for 17 times x buffer sizes 1..40.',
         thorough='(i) without log: all strings of length <= 3 over all 256 bytes and of length <= 7 over the structural alphabet (debug log: the quick bounds); '
-                 '(ii) every seed: all .ksig/.tlv/.bin/.gtts files under test/resource/tlv incl. v2/ (<= 70000 bytes) and 32 reference-built objects; (iii) as quick.'),
+                 '(ii) every seed: all .ksig/.tlv/.bin/.gtts files under test/resource/tlv incl. v2/ (<= 70000 bytes) and 33 reference-built objects, all five families without log; '
+                 'with debug log every family of the 13 quick seeds and the id/trunc/len/zend families of all other seeds; seeds larger than 8192 bytes (6 publications files, one 64 KB string element): '
+                 'per-offset family = every TLV header offset x 6 operators and every payload offset x {^01}; (iii) as quick.'),
     technique='bounded-exhaustive input enumeration and structure-aware exhaustive single mutation on the compiled code under ASan/UBSan with exact-size input blocks, allocation accounting and a context sentinel',
     level_text='Every input of the stated finite families is executed on the real libksi object code through every listed entry point and, on success, through the follow-up operations, at two log levels. '
                'Memory safety, totality and leak freedom are properties of each single execution, observed directly by the sanitizers, the allocation funnel and the sentinel; '
